@@ -406,6 +406,8 @@ class ApiCheck(object):
             self.probes['awslambda_entrypoint'] += 1
         if meta.get('concat'):
             self.probes['concat_source'] += 1
+        if meta.get('sweep'):
+            self.probes['sweep_permutation_runs'] = self.probes.get('sweep_permutation_runs', 0) + 1
         if threaded:
             late = ('ModulePrinter', 'compare_ast', 'rename', 'rename_literals', 'remove_posargs', 'bind_names', 'resolve_names')
             early = ('add_parent', 'add_namespace')
